@@ -134,6 +134,7 @@ W_IN_FREE = ['func', 'alias', 'alias_params_resolver', 'data_handler', 'capture_
 
 def w_in_state(mode, case=None, obl=None, props=None):
     repo, spec, ex, st, selfv, fr, node, info = setup(W_IN, mode, W_IN_FREE)
+    spec.envelopes_direct = True
     spec.declare_role(st, fr['func'], 'UserBody', 'func')
     st.assume(Val.is_b(fr['static_function'])); st.assume(Val.is_b(fr['run_intercepted_when_missing'])); st.assume(Val.is_s(fr['alias']))
     spec.declare_handler(st, fr['data_handler'], 'InputInterceptionDataHandler')
@@ -159,7 +160,7 @@ def w_in_state(mode, case=None, obl=None, props=None):
         # a literal list of the decorator: known spine
         fbl = st.new_seq(z3.Concat(z3.Unit(Val.s(a1_)), z3.Unit(Val.s(a2_)))); st.g.setdefault('spine', {})[st.n] = [Val.s(a1_), Val.s(a2_)]
         st.assume(lib.ITERABLE(fbl)); st.assume(z3.Not(lib.CALLABLE(fbl)))
-        st.frames[st.stack[-1]]['fallback_aliases'] = fbl; fr['fallback_aliases'] = fbl
+        st.frames[st.stack[-1]]['fallback_aliases'] = fbl; fr['fallback_aliases'] = fbl; st.g['fb_two'] = (a1_, a2_)
         assert st.sat(), 'vacuous case'
     else:
         apply_case(st, fr, case, 'w_in', obl, 'W_in.' + mode, (props or ['C02' if mode == 'playback' else 'C04'])[0])
@@ -181,10 +182,22 @@ def w_in_playback(props=None, case=None):
                        z3.Implies(Val.is_ref(fr['fallback_aliases']), s.g['seq'][Val.addr(fr['fallback_aliases'])] == s.g['cfg_fb0']), oc))
         found = 'found_index' in s.g
         kf_exc = [t for t in hk if t['name'] in ('alias_params_resolver', 'fallback_aliases') and t['outcome'][0] == 'raise']
+        if 'possible' in s.g and (case or {}).get('fb') in ('none', 'two'):
+            # C06: the keys looked up are K(resolved alias, captured arguments of THIS call) followed by K(fallback alias, the same captured
+            # arguments) in the decorator's order -- each built by the key function, never derived from another key's text
+            old_ = s.g['old']; ka_ = Val.addr(fr['kwargs'])
+            res_ = [t for t in hk if t['name'] == 'alias_params_resolver' and t['outcome'][0] == 'ret']
+            al_ = Val.s(FA(fr['alias'], res_[0]['outcome'][1])) if res_ else fr['alias']
+            kof = lambda a_: Val.s(KF(a_, fr['capture_args'], fr['static_function'], old_['seq'][Val.addr(fr['args'])], old_['ddom'][ka_], old_['dmap'][ka_]))
+            exp = [kof(al_)] + [kof(Val.s(a_)) for a_ in s.g.get('fb_two', ())]
+            poss = s.g['possible']
+            obl.append(Obl('C06/%s/lookup_keys_are_K_of_the_main_and_the_fallback_aliases_in_order' % U, ('C06', 'C02', 'C01'), s,
+                           z3.And(*[p_ == e_ for p_, e_ in zip(poss, exp)]) if len(poss) == len(exp) else z3.BoolVal(False), oc))
         if found:
             nd = [n_ for n_ in s.g['notes'] if n_[0] == 'get_data']
             if not nd:
-                obl.append(Obl('C02/%s/present/value_read_from_recording' % U, 'C02', s, z3.BoolVal(False), oc)); continue
+                # C11: what replay hands out comes from a copying read of the entry, never from the entry itself
+                obl.append(Obl('C02/%s/present/value_read_from_recording' % U, ('C02', 'C11'), s, z3.BoolVal(False), oc)); continue
             cpy, orig = nd[0][3], nd[0][4]
             has_exc = s.dhas(orig, S('exception'))
             # known finding C02-recorded-key-error: a *recorded* RecordingKeyError (or one raised by the restore handler) is caught by the
@@ -208,17 +221,24 @@ def w_in_playback(props=None, case=None):
                            z3.Implies(old_['ddom'][Val.addr(pbr)][mk_], nd[0][2] == mk_), oc))
             if oc[0] == 'raise':
                 rest = [t for t in hk if t['name'] == 'restore_input_from_recording' and t['outcome'][0] == 'raise']
-                obl.append(Obl('C01/%s/replay/raises_copy_of_recorded_exception' % U, 'C01', s,
+                obl.append(Obl('C01/%s/replay/raises_copy_of_recorded_exception' % U, ('C01', 'C11'), s,
                                z3.Implies(norke, z3.Or(z3.And(has_exc, oc[1] == CP(s.dget(orig, S('exception')))), *[oc[1] == t['outcome'][1] for t in rest])), oc))
             elif oc[0] == 'return':
                 rest = [t for t in hk if t['name'] == 'restore_input_from_recording' and t['outcome'][0] == 'ret']
                 dh_none = fr['data_handler'] == NONE
-                obl.append(Obl('C01/%s/replay/returns_copy_of_recorded_value' % U, 'C01', s,
+                obl.append(Obl('C01/%s/replay/returns_copy_of_recorded_value' % U, ('C01', 'C11'), s,
                                z3.Implies(norke, z3.And(z3.Not(has_exc), z3.If(dh_none, oc[1] == CP(s.dget(orig, S('value'))),
                                                                                 z3.Or(*[oc[1] == t['outcome'][1] for t in rest]) if rest else z3.BoolVal(False)))), oc))
                 if rest:
-                    obl.append(Obl('C01/%s/replay/handler_restores_from_recorded_value' % U, 'C01', s,
+                    obl.append(Obl('C01/%s/replay/handler_restores_from_recorded_value' % U, ('C01', 'C11'), s,
                                    z3.Implies(norke, rest[0]['pos'][0] == CP(s.dget(orig, S('value')))), oc))
+                    # C20 / C01: the handler restores for THIS call: it is given the call's own positional arguments (instance included, as when
+                    # recording) and keyword arguments
+                    old_ = s.g['old']; t_ = rest[0]
+                    a_ok = z3.BoolVal(False) if len(t_['pos']) < 3 else z3.Or(t_['pos'][1] == fr['args'], s.seq(t_['pos'][1]) == old_['seq'][Val.addr(fr['args'])])
+                    k_ok = z3.BoolVal(False) if len(t_['pos']) < 3 else z3.Or(t_['pos'][2] == fr['kwargs'],
+                                                                               z3.And(s.dcontents(t_['pos'][2])[0] == old_['ddom'][Val.addr(fr['kwargs'])], s.dcontents(t_['pos'][2])[1] == old_['dmap'][Val.addr(fr['kwargs'])]))
+                    obl.append(Obl('C01/%s/replay/handler_restores_with_the_calls_own_arguments' % U, ('C01', 'C20', 'C02'), s, z3.And(a_ok, k_ok), oc))
             continue
         # ---- no key present, or key building failed
         run_orig = truthy(fr['run_intercepted_when_missing']); subst = fr['value_when_missing']
@@ -273,8 +293,18 @@ def w_in_recording(props=None, case=None):
                 cl = z3.And(s.dhas(env, S('value')), z3.Not(s.dhas(env, S('exception'))),
                             z3.Or(stored == src, *[z3.And(stored == c[1], c[2] == src) for c in copies]))
                 obl.append(Obl('C01/%s/record/envelope_holds_value_or_prepared_value' % U, 'C01', s, cl, oc))
+                # C11: with copy-on-interception the stored value is a COPY of what is recorded (the prepared form when there is a handler),
+                # unless that copy could not be made
+                cflag = truthy(s.rd(s.g['old']['params'], 'copy_data_on_intercepion')) if s.g['old'].get('params') is not None else None
+                if cflag is not None:
+                    failed = [n_[1] == src for n_ in s.g['notes'] if n_[0] == 'copy_failed']
+                    obl.append(Obl('C11/%s/record/copy_on_interception_stores_a_copy' % U, ('C11', 'C01'), s,
+                                   z3.Implies(cflag, z3.Or(*([z3.And(stored == c[1], c[2] == src) for c in copies] + failed)) if (copies or failed) else z3.BoolVal(False)), oc))
                 if prep:
                     obl.append(Obl('C01/%s/record/handler_prepares_the_body_result' % U, 'C01', s, prep[0]['pos'][1] == out[1], oc))
+                    t_ = prep[0]; old_ = s.g['old']
+                    a_ok = z3.BoolVal(False) if len(t_['pos']) < 4 else z3.Or(t_['pos'][2] == fr['args'], s.seq(t_['pos'][2]) == old_['seq'][Val.addr(fr['args'])])
+                    obl.append(Obl('C01/%s/record/handler_prepares_with_the_calls_own_arguments' % U, ('C01', 'C20'), s, a_ok, oc))
             else:
                 cl = z3.And(s.dhas(env, S('exception')), s.dget(env, S('exception')) == out[1], z3.Not(s.dhas(env, S('value'))))
                 obl.append(Obl('C01/%s/record/envelope_holds_exception' % U, 'C01', s, cl, oc))
@@ -350,7 +380,7 @@ def w_out(mode='playback', props=None, case=None):
                     obl.append(Obl('C02/%s/present/recorded_key_error_not_treated_as_missing' % U, 'C02', s, z3.Not(rke), oc,
                                    finding='C02-recorded-key-error'))
                 elif oc[0] == 'raise':
-                    obl.append(Obl('C01/%s/replay/raises_copy_of_recorded_exception' % U, 'C01', s,
+                    obl.append(Obl('C01/%s/replay/raises_copy_of_recorded_exception' % U, ('C01', 'C11'), s,
                                    z3.And(s.dhas(orig, S('exception')), oc[1] == CP(s.dget(orig, S('exception')))), oc))
             if oc[0] == 'return' and not nd:
                 obl.append(Obl('C02/%s/missing_result/default_only_if_not_failing' % U, 'C02', s,
